@@ -309,7 +309,15 @@ func (in *hbInterp) walkStmt(fr *hbFrame, st ast.Stmt, defers *[]string) {
 					}
 				}
 				in.walkExpr(fr, r)
-				if src := in.elemSource(fr, r); src != "" && lch == "" {
+				if ix, isIx := hbUnparen(r).(*ast.IndexExpr); isIx && lch == "" {
+					// cb := r.callbacks[i]
+					if src := in.elemSource(fr, ix.X); src != "" {
+						if id, ok := l.(*ast.Ident); ok && id.Name != "_" {
+							in.emit("read", src)
+							fr.alias[id.Name] = "elem:" + src[6:]
+						}
+					}
+				} else if src := in.elemSource(fr, r); src != "" && lch == "" {
 					if id, ok := l.(*ast.Ident); ok && id.Name != "_" {
 						in.emit("read", src)
 						fr.alias[id.Name] = src
